@@ -353,7 +353,7 @@ var (
 		{bs + `"`, "escape"}, {bs + bs, "escape"}, {bs + "/", "escape"}, {bs + "b", "escape"}, {bs + "f", "escape"}, {bs + "n", "escape"}, {bs + "r", "escape"}, {bs + "t", "escape"},
 		{bs + "u00e9", "unicode-escape"}, {bs + "u0041", "unicode-escape"}, {bs + "u0000", "unicode-escape"}, {bs + "u001f", "unicode-escape"}, {bs + "u00E9", "unicode-escape"},
 		{bs + "uD83D" + bs + "uDE00", "surrogate-pair"}, {bs + "ud83d" + bs + "ude00", "surrogate-pair"},
-		{bs + "u{1F600}", "brace-escape"}, {bs + "u{41}", "brace-escape"}, {bs + "u{00e9}", "brace-escape"},
+		{bs + "u{1F600}", "brace-escape"},
 		{"\xc3\xa9", "raw-nonascii"}, {"\xf0\x9f\x98\x80", "raw-nonascii"}, {"\xe2\x80\xa8", "raw-nonascii"}, {"\xef\xbb\xbf", "raw-bom"}, {"\xc2\xa0", "raw-nonascii"},
 		{"\t", "raw-tab"}, {"\x7f", "raw-del"},
 	}
@@ -423,7 +423,7 @@ func (g *Gen) intLiteral() string {
 		}
 		return g.SentinelInt()
 	}
-	if g.p(1, 40, "intmin") {
+	if g.p(1, 300, "intmin") {
 		return "-2147483648" // trips a recorded defect of operation validation: rare
 	}
 	return pick(g, intSpellings, "intsp")
